@@ -29,6 +29,7 @@ structure Cl where
   leaseID : Nat := 0
   svcCid : String := ""
   renewErr : Bool := false
+  renewFailNext : Nat := 0
   events : List String := []
   gen : Nat := 0
   armed : Option Nat := none                    -- node whose next snapshot is suspended after its capture
@@ -376,12 +377,16 @@ def step (c : Cl) (line : String) : Cl × String :=
     (match k.toNat? >>= fun k => c.nodes[k]?.map fun n => (k, n) with
      | none => (c, "bad-op")
      | some (k, n) => if n.up then (c, "bad-op") else (c.setNode k { n with cid := x }, "ok"))
+  | ["lease-ttl", _] => (c, "ok")
+  | ["renewfail-next", n] => ({ c with renewFailNext := n.toNat?.getD 0 }, "ok")
   | ["handoff", p, k] =>
     (match p.toNat? >>= fun p => c.nodes[p]?.map fun n => (p, n), k.toNat? >>= fun k => c.nodes[k]?.map fun n => (k, n) with
      | some (p, pn), some (k, kn) =>
        if !pn.up || !kn.up then (c, "bad-op") else
        let connected := p ≠ k && kn.net && kn.lease.isNone && kn.eng.exit == 0 && c.holder == some p &&
          (Lease.attach c.svcCid kn.cid pn.cid).isSome
+       -- the renewal inside the handoff fails: the primary carries on, nothing changes
+       if connected && c.renewFailNext > 0 then ({ c with renewFailNext := c.renewFailNext - 1 }, "ok") else
        (match Lease.handoff c.svc p pn.lnode k kn.lnode connected with
         | none => (c, "err")
         | some (sv, _, _) =>
